@@ -20,6 +20,10 @@ import FV.Model.Headers
 import FV.Model.Registry0
 import FV.Model.Receivers
 import FV.Proofs.Headers
+import FV.Model.Receivers2
+import FV.Proofs.Receivers2
+import FV.Model.Receivers3
+import FV.Proofs.Receivers3
 
 namespace FV.C05
 open FV
@@ -109,5 +113,134 @@ example : unmarshalStream [0, 255, 255, 255, 255] = .err .invalidData := by
   simp [unmarshalStream, rd32, toI32]
 example : executeFrameEmpty [1, 2] = .err .invalidData := by simp [executeFrameEmpty]
 example : natsServerProcessFrame [] = .err .invalidData := by simp [natsServerProcessFrame]
+
+end FV.C05
+
+/-! ## Second part — connection-oriented receivers, the STOMP subscriber
+
+Models: `FV.Model.Receivers2`. The framed transport's reads (`TFramedTransport.Read` under `io.ReadFull`), the
+adapter transport's read loop, `FSimpleServer.accept`, STOMP `processMessages`. The loops carry a fuel
+argument and answer `Res.panic .fuel` when it runs out, so each `c05_no_panic_…` below is also the statement
+that the loop terminates on every byte stream ("never blocks forever": the only way the real loop waits is in
+a read of the connection, which the peer's END_OF_FILE or a local `Close()` ends). -/
+namespace FV.C05
+open FV FV.Recv2
+
+/-- `io.ReadFull` over a `TFramedTransport`, any pending frame state, any stream, any length asked for. -/
+theorem c05_no_panic_framedRead (t : FT) (n : Nat) : ∀ p, t.readFull n ≠ .panic p :=
+  readFull_no_panic t n
+
+/-- (a) Client response path on a socket: the adapter transport's read loop, for EVERY byte stream of the
+peer (size prefixes of 0, cut off, above `maxLength`, larger than what follows; any bodies; any number of
+frames) neither panics nor runs forever. -/
+theorem c05_no_panic_adapterReadLoop (s : Bytes) : ∀ p, adapterRecv s ≠ .panic p :=
+  adapterRecv_no_panic s
+
+/-- … and the worst it does is close its own connection, publishing one value on `Closed()`. -/
+theorem c05_adapter_worst_is_close (s : Bytes) : ∃ e : LoopEnd, adapterRecv s = .ok e :=
+  adapterRecv_closes s
+
+/-- (b) Server request path on a socket: `FSimpleServer.accept`, for EVERY byte stream of the client. -/
+theorem c05_no_panic_simpleServerAccept (s : Bytes) : ∀ p, accept s ≠ .panic p :=
+  accept_no_panic s
+
+/-- … and the worst it does is give up that client, returning the cause. -/
+theorem c05_accept_worst_is_return (s : Bytes) : ∃ e : AcceptEnd, accept s = .ok e :=
+  accept_returns s
+
+/-- The request header read off a framed transport (`readHeader` with frame boundaries in play). -/
+theorem c05_no_panic_readHeaderFramed (t : FT) : ∀ p, readHeaderF t ≠ .panic p :=
+  readHeaderF_no_panic t
+
+/-- Connection-oriented receivers (adapter read loop, simple server): bytes arriving on connection `i` of a
+process with any number of connections never crash the process, leave every other connection exactly as it
+was, and close connection `i` at most once, appending the receiver's cause to what its owner has seen; a
+connection that is closed already is not touched. -/
+theorem c05_connection_receiver_closes_once (i : Nat) (s : Bytes) (y : Sys) (hy : y.crashed = false) :
+    ∀ recv, (recv = adapterCause ∨ recv = acceptCause) →
+    (recvOn recv i s y).crashed = false ∧
+    (∀ j, j ≠ i → (recvOn recv i s y).conns[j]? = y.conns[j]?) ∧
+    (∀ c, y.conns[i]? = some c →
+      (c.isOpen = false → (recvOn recv i s y).conns[i]? = some c) ∧
+      (c.isOpen = true → ∃ cause, recv s = .ok cause ∧
+        (recvOn recv i s y).conns[i]? = some ⟨false, c.causes ++ [cause]⟩)) := by
+  intro recv hrecv
+  have hr : ∀ s, ∃ c, recv s = .ok c := by
+    rcases hrecv with h | h <;> subst h
+    · exact adapterCause_ok
+    · exact acceptCause_ok
+  obtain ⟨h1, _, h3, h4⟩ := recvOn_spec recv hr i s y hy
+  exact ⟨h1, h3, h4⟩
+
+/-- Over any history of deliveries to any connections, starting from fresh ones: the process has not
+crashed, an open connection has published nothing, a closed one exactly one cause. -/
+theorem c05_connections_one_cause_each (n : Nat) (ds : List (Nat × Bytes)) :
+    ∀ recv, (recv = adapterCause ∨ recv = acceptCause) →
+    let y := deliverAll recv ⟨false, List.replicate n Conn.fresh⟩ ds
+    y.crashed = false ∧ ∀ c ∈ y.conns, (c.isOpen = true → c.causes = []) ∧ (c.isOpen = false → c.causes.length = 1) := by
+  intro recv hrecv
+  have hr : ∀ s, ∃ c, recv s = .ok c := by
+    rcases hrecv with h | h <;> subst h
+    · exact adapterCause_ok
+    · exact acceptCause_ok
+  apply deliverAll_inv recv hr ds
+  refine ⟨rfl, ?_⟩
+  intro c hc
+  have := List.eq_of_mem_replicate hc
+  subst this
+  exact ⟨fun _ => rfl, fun h => by cases h⟩
+
+/-- (c) Subscriber path over STOMP: `processMessages` never panics on any sequence of message bodies,
+whatever the callback answers, and is still alive afterwards. -/
+theorem c05_no_panic_stomp (cb : Bytes → Bool) (ms : List Bytes) :
+    ∃ w, Stomp.recvAll cb Stomp.init ms = .ok w ∧ w.alive = true := by
+  obtain ⟨w, h, ha⟩ := stomp_recvAll_total cb ms Stomp.init
+  exact ⟨w, h, by rw [ha]; rfl⟩
+
+/-- Message-oriented receiver (STOMP subscriber): after ANY sequence of bodies the next well-formed
+message (at least the 4-byte prefix, accepted by the callback) is delivered and acknowledged. -/
+theorem c05_stomp_keeps_serving (cb : Bytes → Bool) (ms : List Bytes) (m : Bytes)
+    (h4 : 4 ≤ m.length) (hcb : cb (m.drop 4) = true) :
+    ∃ w, Stomp.recvAll cb Stomp.init ms = .ok w ∧
+      Stomp.recv cb w m = .ok { w with delivered := w.delivered + 1, acked := w.acked + 1 } := by
+  obtain ⟨w, h, ha⟩ := stomp_recvAll_total cb ms Stomp.init
+  exact ⟨w, h, stomp_recv_wellformed cb w m (by rw [ha]; rfl) h4 hcb⟩
+
+end FV.C05
+
+/-! ## Third part — the generic client path (`FStandardClient.processReply`), model `FV.Model.Receivers3` -/
+namespace FV.C05
+open FV FV.Recv3
+
+/-- Thrift's binary `ReadMessageBegin` (both envelope forms) on any bytes: an envelope or an error. -/
+theorem c05_no_panic_messageBegin (bs : Bytes) : ∀ p, binMessageBegin bs ≠ .panic p :=
+  binMessageBegin_no_panic bs
+
+/-- (d) Client response path, generic part: for EVERY reply byte string and every method name
+`processReply` neither panics nor fails to classify the reply: it ends in one of the six stages
+(header error, envelope error, wrong method name, exception, invalid message type, result read). -/
+theorem c05_no_panic_processReply (method bs : Bytes) : ∀ p, processReply method bs ≠ .panic p := by
+  intro p h
+  obtain ⟨o, ho⟩ := processReply_total method bs
+  rw [ho] at h
+  cases h
+
+/-- Whatever a reply carries, the response headers it adds to the caller's context never include
+`_opid`: a reply cannot re-label the call it answers. -/
+theorem c05_reply_cannot_set_opid (method bs : Bytes) (o : ReplyOutcome) (h : processReply method bs = .ok o) :
+    ∀ kv ∈ o.added, kv.1 ≠ opIdHeader :=
+  processReply_keeps_opid method bs o h
+
+/-- Garbage is an error: the result struct is only read from a reply whose header block parses and whose
+envelope is a REPLY (type 2) message for this very method; every other byte string ends in a stage that
+returns an error to the caller. -/
+theorem c05_reply_accepted_only_if_wellformed (method bs : Bytes) (o : ReplyOutcome)
+    (h : processReply method bs = .ok o) (hs : o.stage = .reply) :
+    ∃ hd rest name r2, unmarshalStream bs = .ok (hd, rest) ∧ binMessageBegin rest = .ok (name, 2, r2) ∧ name = method :=
+  processReply_reply_stage method bs o h hs
+
+/-- The client path keeps no state between replies: the stage of a reply is a function of that reply alone. -/
+theorem c05_client_stateless (garbage : List Bytes) (method w : Bytes) :
+    (garbage.map (processReply method), processReply method w).2 = processReply method w := rfl
 
 end FV.C05
